@@ -478,6 +478,30 @@ example : ((faultStep (fun _ => []) (fun _ => none) exFault (.setMeta 1 (.raw [7
     (fun s' => (s'.h.mtime, (s'.rds.getD 0 zeroDesc).mtime, s'.st.buf.length))) = some (5, 9, 713) := by
   decide +kernel
 
+/-- **C09/C11, the next successful modification heals the file**: whatever an earlier failed call
+    left — any handle `s`, its store in any state, no agreement between the two assumed — an
+    operation that succeeds and writes at all leaves the header bytes and the table bytes equal
+    to the encoding of the handle it ends with.  (Every accepted mutator ends with
+    `writeDescriptors(); writeHeader()` from memory: `plan_shape`, `flush_synced`.) -/
+theorem C09_next_success_heals (s : Img) (op : Op) (now : Int) (hne : op ≠ .reload)
+    (hd : 128 ≤ s.h.doff) (hok : (step sha ph s op now).2 = .ok)
+    (hw : (plan sha ph s op now).1 ≠ []) :
+    Synced (step sha ph s op now).1 := by
+  obtain ⟨st', hcalls, hs', hres⟩ := step_store sha ph s op now hne (by rw [hok]; simp)
+  have hplanok : (plan sha ph s op now).2.2 = .ok := by rw [← hres]; exact hok
+  rcases (plan_shape sha ph s op now).2 hplanok with ⟨hnil, _⟩ | ⟨pre, hsplit, hdoff, _⟩
+  · exact absurd hnil hw
+  · rw [hsplit, calls_append] at hcalls
+    cases hpre : s.st.calls pre with
+    | none => simp [hpre] at hcalls
+    | some st1 =>
+      simp only [hpre, Option.bind_some] at hcalls
+      obtain ⟨st2, hfl, hsync⟩ := flush_synced (plan sha ph s op now).2.1 st1 (by rw [hdoff]; exact hd)
+      rw [hfl] at hcalls
+      cases hcalls
+      rw [hs']
+      exact hsync
+
 theorem C09_phases_are_the_plan (s : Img) (op : Op) (now : Int) :
     Phase.allCalls (phases sha ph s op now) = (plan sha ph s op now).1 :=
   phases_calls sha ph s op now
